@@ -111,7 +111,7 @@ var histories = ev.NewCheck("C01", "api-histories",
 		return gen.API(t, gen.APIOpts{MaxTracks: 6, MaxOps: 10, MaxPayload: 70000, MaxDelta: 0xFFFFFFFF, LongTracks: 120})
 	}, run)
 
-func TestPropAPIHistories(t *testing.T) { histories.Rapid(t, 2000, 60000) }
+func TestPropAPIHistories(t *testing.T) { histories.Rapid(t, 2000, 40000) }
 
 // ManyCase: very many tiny tracks written and read back.
 type ManyCase struct {
